@@ -891,7 +891,39 @@ func checkInert(c *Ctx) {
 			bad = "the trimmed line is not tested with isComment"
 		}
 		nCtor := 0
+		// a constructor whose body runs in place (through a helper outside the
+		// vocabulary) shows as the store of the rule text into a fresh rule
+		inPlace := map[string]bool{}
 		for _, ef := range s.Effects {
+			if ef.Kind == "store" && ef.Addr.Op == "faddr" && ef.Addr.Aux == "RuleText" && (ef.Addr.Args[0].Op == "alloc" || ef.Addr.Args[0].Op == "new") {
+				tn := ""
+				if pt, ok := ef.Addr.Args[0].Typ.(*types.Pointer); ok {
+					if nt, ok := pt.Elem().(*types.Named); ok {
+						tn = nt.Obj().Name()
+					}
+				}
+				n := "New" + tn
+				if _, isCtor := ctors[n]; !isCtor || inPlace[n] {
+					continue
+				}
+				inPlace[n] = true
+				nCtor++
+				if u.bdd.And(ef.Cond, inert) != False {
+					bad = n + " (in place) can run on a blank or comment line"
+				}
+				idOK := false
+				for _, e2 := range s.Effects {
+					if e2.Kind == "store" && e2.Addr.Op == "faddr" && e2.Addr.Aux == "FilterListID" && e2.Addr.Args[0] == ef.Addr.Args[0] && e2.Val == ps[1] {
+						idOK = true
+					}
+				}
+				if ef.Val.key != trimmed.key || !idOK {
+					c.Fail("C12.R5", "NewRule: "+n+" receives the trimmed line and the list id", ef.Pos, "in place: text is "+clip(u.Show(ef.Val), 60))
+				} else {
+					c.OK("C12.R5", "NewRule: "+n+" receives the trimmed line and the list id", ef.Pos, "TrimSpace(line), filterListID (constructor body in place)")
+				}
+				continue
+			}
 			if ef.Kind != "call" {
 				continue
 			}
